@@ -85,6 +85,8 @@ type StoreH struct {
 	Spec  StoreSpec
 	Ext   *extension.Host
 	Dir   string
+
+	restoreIDs func() // puts the file store's id counter back (set by ReopenInBubble)
 }
 
 // NewStore constructs the real store.
@@ -134,8 +136,29 @@ func (h *StoreH) Reopen() {
 	h.Store = st
 }
 
+// ReopenInBubble is Reopen for callers inside a testing/synctest bubble (the counter restart
+// must not leave a goroutine behind); Close puts the process-wide counter back.
+func (h *StoreH) ReopenInBubble() {
+	if h.Spec.Backend != "file" {
+		return
+	}
+	restore := file.VerifRestartIDsInBubble()
+	if h.restoreIDs == nil {
+		h.restoreIDs = restore // the first one knows the counter that was there before
+	}
+	st, err := file.New(config.Storage{MailboxMsgCap: h.Spec.Cap, Params: map[string]string{"path": h.Dir}}, h.Ext)
+	if err != nil {
+		panic("VERIF-INFRA file.New (reopen): " + err.Error())
+	}
+	h.Store = st
+}
+
 // Close stops background goroutines and removes on-disk state.
 func (h *StoreH) Close() {
+	if h.restoreIDs != nil {
+		h.restoreIDs()
+		h.restoreIDs = nil
+	}
 	if ms, ok := h.Store.(*mem.Store); ok {
 		ms.VerifStop()
 	}
